@@ -1,15 +1,18 @@
 /-
   C06Reach — "decided ⇒ correct" (C06) over whole histories: the theorems.
 
-  The contracts (`TruthStep`, `ResultOK`, `ImportAddsNew`, `JobTextOK`, `MarkRefOK`), the ghost (`ghostNext`) and
-  the job invariant (`JobInv`) are defined, with a comment on every clause, in Pk/Props/C06ReachSpec.lean; the
-  lemmas are in Pk/Proofs/MgrTruth*.lean.
+  The contracts (`TruthStep`, `ResultOK`, `ImportAddsNew`, `EvFeatOK`, `JobTextOK`), the ghost (`ghostNext`), the
+  state invariants (`GenInv`, `TagFeatInv`) and the job invariant (`JobInv`) are defined, with a comment on every
+  clause, in Pk/Props/C06ReachSpec.lean; the lemmas are in Pk/Proofs/MgrTruth*.lean.
 
-   * `decided_correct_step` — one event: all invariants (`Good`: `Reach`, acyclic tag graph, `C06.Inv`, the
-     ghost invariant `JobInv`) are preserved by every event that satisfies `StepOK`;
+   * `decided_correct_step` — one event: all invariants (`Good`: `Reach`, acyclic tag graph, `GenInv`,
+     `TagFeatInv`, `C06.Inv`, the ghost invariant `JobInv`) are preserved by every event that satisfies `StepOK`
+     (= `PayloadOK`, `EvFeatOK`, `ImportAddsNew`, `TruthStep`, `ResultOK`, `JobTextOK`);
    * `decided_correct_run`  — every history from the initial state: `C06.Inv` holds in every state reached;
    * `decided_correct_example` — non-vacuity: a concrete history (add a tag, import a capture that adds a
-     stream, deliver the tagging completion) with a concrete truth function satisfies all hypotheses.
+     stream, deliver the tagging completion) with a concrete truth function satisfies all hypotheses;
+   * `aba_decided_correct` — the delete/re-create trace that the first version had to exclude is safe now;
+   * `added_hypotheses_needed` — formal counterexamples for `ImportAddsNew`, `EvFeatOK`, `JobTextOK`.
 -/
 import Pk.Props.C06ReachSpec
 import Pk.Proofs.MgrTruthEvF
@@ -17,6 +20,7 @@ import Pk.Proofs.MgrTruthExample
 import Pk.Proofs.MgrTruthCex
 import Pk.Proofs.MgrTruthCex2
 import Pk.Proofs.MgrTruthCex3
+import Pk.Proofs.MgrTruthCex4
 
 namespace Pk.Props.C06Reach
 open Pk.Mgr Pk.Props.MgrReach Pk.Proofs.MgrTruth Pk.Proofs.MgrTags
@@ -139,11 +143,11 @@ private theorem core_step (s : St) (e : Ev) (st : Started) (T T' g : Truth) (hg 
       exact inv_tagDone s jn result st T T' g hg snap held hj ht (hok.result snap held hj)
   | addTag name color defn f =>
     have hok' := res_ok_addTag s name color defn f st herr
-    exact wrap (good_addTag s name color defn f st T T' g hg hok' ht.1 ht.2 hjt)
+    exact wrap (good_addTag s name color defn f st T T' g hg hok' ht.1 ht.2)
   | updQuery name defn f =>
     have hok' := res_ok_updQuery s name defn f st herr
     exact wrap (good_updQuery s name defn f st T T' g hg hA' hok' ht
-      (fun jn snap held hj hn hd => hjt jn snap held hj hn hd hok'))
+      (fun jn snap held hj t ht' hgn hd => hjt jn snap held hj t ht' hgn hd hok'))
   | updName name new =>
     have hok' := res_ok_updName s name new st herr
     by_cases hnew : new = ""
@@ -151,7 +155,7 @@ private theorem core_step (s : St) (e : Ev) (st : Started) (T T' g : Truth) (hg 
       simp only [if_true] at ht
       exact wrap (good_same_state s _ st T T' g hg (updName_nil s name st) ht)
     · simp only [hnew, if_false] at ht
-      exact wrap (good_updName s name new st T T' g hg hok' hnew ht.1 ht.2 hjt)
+      exact wrap (good_updName s name new st T T' g hg hok' hnew ht.1 ht.2)
   | markAdd name ids =>
     have hok' := res_ok_markAdd s name ids st herr
     by_cases hne : ids = []
@@ -160,7 +164,7 @@ private theorem core_step (s : St) (e : Ev) (st : Started) (T T' g : Truth) (hg 
       exact wrap (good_same_state s _ st T T' g hg (markAdd_nil s name st) ht)
     · simp only [hne, if_false] at ht
       obtain ⟨t, hst⟩ := markAdd_some s name ids st hok' hne
-      exact wrap (good_markAdd s name ids st T T' g hg hok' hne t hst (ht t hst).1 (ht t hst).2 hok.markRef hjt)
+      exact wrap (good_markAdd s name ids st T T' g hg hok' hne t hst (ht t hst).1 (ht t hst).2 hjt)
   | markDel name ids =>
     have hok' := res_ok_markDel s name ids st herr
     by_cases hne : ids = []
@@ -169,10 +173,10 @@ private theorem core_step (s : St) (e : Ev) (st : Started) (T T' g : Truth) (hg 
       exact wrap (good_same_state s _ st T T' g hg (markDel_nil s name st) ht)
     · simp only [hne, if_false] at ht
       obtain ⟨t, hst⟩ := markDel_some s name ids st hok' hne
-      exact wrap (good_markDel s name ids st T T' g hg hok' hne t hst (ht t hst).1 (ht t hst).2 hok.markRef hjt)
+      exact wrap (good_markDel s name ids st T T' g hg hok' hne t hst (ht t hst).1 (ht t hst).2 hjt)
   | delTag name =>
     have hok' := res_ok_delTag s name st herr
-    exact wrap (good_delTag s name st T T' g hg hok' ht hjt)
+    exact wrap (good_delTag s name st T T' g hg hok' ht)
 
 /-- ONE EVENT: every event that satisfies the contracts preserves all invariants, in particular
     "decided ⇒ correct" and the ghost invariant of the tagging job in flight -/
@@ -180,19 +184,21 @@ theorem decided_correct_step (s : St) (e : Ev) (st : Started) (T T' g : Truth) (
     (hok : StepOK s T g e st T') : Good (step s e st).1 T' (ghostNext s e T' g) := by
   have hR' := reach_step s e st hg.reach hok.payload
   have hA' := C09.acyclic_step s e st hg.reach hok.payload hg.acyclic
+  have hG' := genInv_step s e st hg.reach hok.payload.2.1 hg.gens
+  have hF' := tagFeat_step s e st hg.reach hok.payload.2.1 hok.featOK hg.feats
   obtain ⟨hinv', hjob'⟩ := core_step s e st T T' g hg hok hA'
-  refine ⟨hR', hA', hinv', ?_⟩
+  refine ⟨hR', hA', hG', hF', hinv', ?_⟩
   unfold ghostNext
   cases hj : s.jTag with
   | none =>
     simp only [Option.isNone_none, if_true]
-    exact jobInv_fresh s e st T' hg.reach hok.payload.2.1 (Or.inl hj) hinv'
+    exact jobInv_fresh s e st T' hg.reach hok.payload.2.1 hG' (Or.inl hj) hinv'
   | some j =>
     obtain ⟨jn, snap, held⟩ := j
     simp only [Option.isNone_some, Bool.false_eq_true, if_false]
     by_cases hd : ∃ n r, e = .tagDone n r
     · obtain ⟨n, r, rfl⟩ := hd
-      exact jobInv_fresh s _ st T' hg.reach hok.payload.2.1 (Or.inr ⟨n, r, rfl⟩) hinv'
+      exact jobInv_fresh s _ st T' hg.reach hok.payload.2.1 hG' (Or.inr ⟨n, r, rfl⟩) hinv'
     · have hne : ∀ n r, e ≠ .tagDone n r := fun n r h => hd ⟨n, r, h⟩
       have := hjob' hne jn snap held hj
       cases e with
@@ -223,7 +229,10 @@ theorem runOK_prefix (s : St) (T g : Truth) (h1 h2 : Hist) (hh : RunOK s T g (h1
     exact ⟨hh.1, ih _ _ _ hh.2⟩
 
 theorem good_init (convs : List String) (T g : Truth) : Good (initSt convs) T g :=
-  ⟨reach_init convs, rfl, fun _ _ h => (by cases h), fun _ _ _ _ h => (by cases h)⟩
+  ⟨reach_init convs, rfl,
+   ⟨fun _ _ h => (by cases h), fun _ _ _ h => (by cases h), fun _ _ _ _ h => (by cases h)⟩,
+   ⟨fun _ _ h => (by cases h), fun _ _ _ h => (by cases h)⟩,
+   fun _ _ h => (by cases h), fun _ _ _ _ _ h => (by cases h)⟩
 
 /-- EVERY HISTORY: for every history of events (API calls and job completions in any order) from the initial
     state whose payloads satisfy the contracts and along which the ground truth moves as the frame contract
@@ -253,24 +262,40 @@ theorem decided_correct_example :
     runT exT exHist "tag/x" 0 = true :=
   ⟨example_runOK_closed, decided_correct_run [] exT exHist example_runOK_closed, example_final_closed, rfl⟩
 
+/-! ## the delete / re-create trace is safe now
+
+  The first version of this file had to EXCLUDE (hypothesis `JobTextOK`, delete/re-add clause) the trace
+    job for tag/x = "tag:m" in flight; `delTag tag/x`, `delTag mark/m`, `addTag mark/m "id:1"`,
+    `addTag tag/x "tag:m"`, `tagDone tag/x [0]`
+  on which the model of the OLD service published the answers computed from the old mark/m with `unc = []`
+  (`jobTextOK_counterexample` of the first version; confirmed on the real manager and fixed there by the
+  identity `gen`).  With the identity the trace satisfies all hypotheses of the theorem (`aba_runOK`, from the
+  reachable-style state `abaS`, `aba_good`), the completion discards the result (`aba_now_safe`: the new
+  incarnation of tag/x keeps every stream pending) and "decided ⇒ correct" holds at its end BY the theorem. -/
+theorem aba_decided_correct :
+    C06.Inv (runSt abaS abaH) (runT abaT abaH) ∧
+    (∃ t, sget (runSt abaS abaH).tags "tag/x" = some t ∧ t.mat = [] ∧ t.unc = [0, 1] ∧ t.gen = 3) :=
+  ⟨(good_run abaS abaT abaT abaH aba_good aba_runOK).inv, aba_now_safe⟩
+
 /-! ## the ADDED hypotheses cannot be dropped
 
   Formal counterexamples (concrete witnesses evaluated on the model; proofs in Pk/Proofs/MgrTruthCex*.lean):
    * `importAddsNew_counterexample` — without `ImportAddsNew` the step theorem is false;
-   * `markRefOK_counterexample`     — without `MarkRefOK` two events from a state satisfying all invariants
-     (a mark removal on a tag referenced by the tag of the job in flight, then the completion) break
-     "decided ⇒ correct";
-   * `jobTextOK_counterexample`     — without `JobTextOK` a five-event history (delete the job's tag and the
-     mark tag it references, re-create both with the same texts but another id list, deliver the completion)
-     breaks "decided ⇒ correct". -/
+   * `featRefOK_counterexample`     — without the facts contract `EvFeatOK` three events from a state satisfying
+     all invariants (`addTag` of a tag that references a mark tag with facts that lack the tag-reference feature,
+     a mark removal on the referenced tag, the completion) break "decided ⇒ correct";
+   * `jobTextOK_counterexample`     — without `JobTextOK` two events (an `updQuery` of the job's tag back to the
+     snapshot's text for a definition that looks at ids only, with the abstract truth changing, then the
+     completion) break "decided ⇒ correct".  (An artefact of indexing the truth by names: on the real system
+     the same text of an id list has the same truth.) -/
 theorem added_hypotheses_needed :
-    (¬ (∀ (s : St) (e : Ev) (st : Started) (T T' g : Truth), Good s T g → PayloadOK s e → TruthStep s e T T' →
-        ResultOK s e g → JobTextOK s e st T T' → MarkRefOK s e → C06.Inv (step s e st).1 T')) ∧
+    (¬ (∀ (s : St) (e : Ev) (st : Started) (T T' g : Truth), Good s T g → PayloadOK s e → EvFeatOK e →
+        TruthStep s e T T' → ResultOK s e g → JobTextOK s e st T T' → C06.Inv (step s e st).1 T')) ∧
+    (¬ (∀ (s : St) (T g : Truth) (h : Hist), Good s T g → RunOK' s T g h → C06.Inv (runSt s h) (runT T h))) ∧
     (¬ (∀ (s : St) (T g : Truth) (e1 : Ev) (st1 : Started) (T1 : Truth) (e2 : Ev) (st2 : Started) (T2 : Truth),
-        Good s T g → StepOK' s T g e1 st1 T1 →
-        StepOK' (step s e1 st1).1 T1 (ghostNext s e1 T1 g) e2 st2 T2 →
-        C06.Inv (step (step s e1 st1).1 e2 st2).1 T2)) ∧
-    (¬ (∀ (s : St) (T g : Truth) (h : Hist), Good s T g → RunOK'' s T g h → C06.Inv (runSt s h) (runT T h))) :=
-  ⟨importAddsNew_counterexample, markRefOK_counterexample, jobTextOK_counterexample⟩
+        Good s T g → StepOK4 s T g e1 st1 T1 →
+        StepOK4 (step s e1 st1).1 T1 (ghostNext s e1 T1 g) e2 st2 T2 →
+        C06.Inv (step (step s e1 st1).1 e2 st2).1 T2)) :=
+  ⟨importAddsNew_counterexample, featRefOK_counterexample, jobTextOK_counterexample⟩
 
 end Pk.Props.C06Reach
